@@ -11,6 +11,14 @@
 (* `bad` counts what the harness could not project exactly (a ray          *)
 (* parameter that is not a multiple of 1/4, a normal that is not a unit    *)
 (* axis vector, a squared distance that is not an integer).                *)
+(* Sites: mesh colliders / mesh SDFs of the voxel surface, and objects the  *)
+(* library DERIVES whose true shape is the same voxel world: ColliderToSDF  *)
+(* (d2 projected with the bisection resolution), and - for worlds that are  *)
+(* a pixel set times a z range - ProfileCollider, ProfileSolid, ProfileSDF, *)
+(* ProfilePointSDF over the 2-D outline.  Fields that offer no nearest      *)
+(* point / normal report np = <<>> / axis = 0 (not decided).  Colliders     *)
+(* without triangles report nlin = n, firstsame, hitlin = hit: clause       *)
+(* "scan" is vacuous for them.                                              *)
 (* Queries that are not in general position are skipped (and counted by    *)
 (* the harness-independent operator GPcount for the evidence).             *)
 (***************************************************************************)
